@@ -5,6 +5,7 @@
 #include "sim/sched.h"
 #include "engines/world.h"
 #include "engines/planners.h"
+#include "engines/plan_c17.h"
 
 #include <ompl/base/PlannerData.h>
 #include <ompl/base/goals/GoalLazySamples.h>
@@ -533,6 +534,7 @@ public:
     void init(const sim::Options &) override
     {
         ompl::msg::noOutputHandler();
+        rngfault::install();
         Json d = Json::object();
         d["space"] = "rv";
         d["dim"] = 2;
@@ -594,6 +596,23 @@ public:
         sim::Rng g(seed);
         if (o.prop == "C04" && o.get("planner").empty() && index % 3 == 2)
             return genSolset(g);
+        if (o.prop == "C17")
+        {
+            Json plan = Json::object();
+            plan["kind"] = "simplify";
+            plan["planner"] = "RRTConnect";
+            GenWorld G = genWorld(g, "RRTConnect", g_specs["RRTConnect"], 1, false);
+            if (G.world.gets("space") == "rs")
+                G.world["space"] = "se2";  // the length clauses are about metric spaces
+            plan["world"] = G.world;
+            Json qs = Json::array();
+            qs.push(G.queries[0]);
+            plan["queries"] = qs;
+            plan["ompl_seed"] = (long)g.range(1, 2000000000);
+            plan["repeat_states"] = g.chance(0.2);
+            plan["ops"] = c17::genOps(g, o.thorough());
+            return plan;
+        }
         auto el = eligible(o);
         // round-robin over planners so every planner gets its share, seed decides the rest
         std::string planner = el[(size_t)(base % (long)el.size())];
@@ -810,7 +829,7 @@ public:
     }
     bool judgesCrashes(const sim::Options &o) const override
     {
-        return o.prop == "C03" || o.prop == "C19";  // "does not crash" is C03's clause (C19-B: its threaded planners); C01/C04 judge what solve() reports
+        return o.prop == "C03" || o.prop == "C19" || o.prop == "C17";  // "does not crash" is C03's clause (C19-B: its threaded planners); C01/C04 judge what solve() reports
     }
     void atChildExit(Json &e) override
     {
@@ -897,6 +916,15 @@ public:
 
     std::string rule(const sim::Options &o) const override
     {
+        if (o.prop == "C17")
+            return "case = generated world (R^n, SE(2), SE(3), weighted compound; balls, boxes, sub-resolution slabs) x an input path "
+                   "produced by real planners (RRTConnect, RRT; sometimes with repeated states / zero-length segments added) x a "
+                   "history of 1-4 (quick) post-processing routines (reduceVertices, ropeShortcutPath, partialShortcutPath, "
+                   "collapseCloseVertices, smoothBSpline, perturbPath, findBetterGoal(ptc / maxTime), simplify(ptc / maxTime), "
+                   "simplifyMax, interpolate(n), interpolate(), subdivide, PathHybridization) with generated parameters, with or "
+                   "without objective and goal; the simulator owns the routine's random stream (seed + extreme-draw bursts through "
+                   "H1), the cancellation index (F1) and the clock of the timed forms (simulated). non-trivial = at least one routine "
+                   "ran on a real path and was judged; distinct = distinct (space, routine sequence, fault) signatures";
         if (o.prop == "C03")
             return "fault enumeration: for each base case (planner round-robin over all single-threaded geometric "
                    "planners, generated world/query/knobs/seed) the first solve is cancelled at EVERY termination-"
@@ -1300,6 +1328,8 @@ sim::CaseResult PlanSim::run(const sim::Options &o, const Json &plan)
 {
     if (plan.gets("kind") == "solset")
         return runSolset(o, plan);
+    if (plan.gets("kind") == "simplify")
+        return c17::run(o, plan);
     if (o.prop == "C20" && !g_oneshot)
         return runDet(o, plan);
     sim::CaseResult res;
